@@ -98,6 +98,46 @@ spec('HeatEquation_Chebychev', 'Heat2DChebychev', [dict(nx=16, ny=17)], spectral
 spec('HeatEquation_Chebychev', 'Heat2DUltraspherical', [dict(nx=16, ny=17)], spectral=True)
 spec('Burgers', 'Burgers1D', [dict(N=8)], spectral=True)
 spec('Burgers', 'Burgers2D', [dict(nx=4, nz=8)], spectral=True)
+# ---- non-default parameter variants (appended so that variant 0 stays the configuration the sibling relation uses)
+def more(name, *variants):
+    SPECS[name]['variants'] = list(SPECS[name]['variants']) + list(variants)
+
+
+more('advectiondiffusion1d_implicit', dict(nvars=16, c=-0.7, freq=1, nu=0.1, L=2.0), dict(nvars=32, c=2.0, freq=2, nu=0.005, L=0.5))  # freq*L integer: the closed form is periodic on the domain
+more('advectionNd', dict(nvars=16, c=-1.3, freq=2, stencil_type='center', order=4, bc='periodic'), dict(nvars=16, c=0.5, freq=-1, sigma=0.1, stencil_type='center', order=6, bc='periodic'), dict(nvars=(8, 8, 8), c=0.4, freq=(2, 2, 2), bc='periodic'))
+more('allencahn_front_fullyimplicit', dict(nvars=31, dw=0.0, eps=0.08, interval=(-1.0, 1.0), newton_tol=1e-11), dict(nvars=15, dw=-0.1, eps=0.02, newton_tol=1e-11))
+more('allencahn_front_semiimplicit', dict(nvars=31, dw=0.0, eps=0.08, interval=(-1.0, 1.0), newton_tol=1e-11))
+more('allencahn_periodic_fullyimplicit', dict(nvars=32, dw=0.0, eps=0.08, interval=(-1.0, 1.0), radius=0.4, newton_tol=1e-11))
+more('allencahn_periodic_semiimplicit', dict(nvars=32, dw=0.0, eps=0.08, interval=(-1.0, 1.0), radius=0.4, newton_tol=1e-11))
+more('allencahn_periodic_multiimplicit', dict(nvars=32, dw=0.0, eps=0.08, interval=(-1.0, 1.0), radius=0.4, newton_tol=1e-11))
+more('allencahn_fullyimplicit', dict(nvars=(8, 8), nu=1, eps=0.08, radius=0.3, order=4, newton_tol=1e-10, lin_tol=1e-12, lin_maxiter=500))
+more('allencahn_semiimplicit', dict(nvars=(8, 8), nu=1, eps=0.08, radius=0.3, order=4, lin_tol=1e-12, lin_maxiter=500))
+more('allencahn2d_imex', dict(nvars=(8, 8), nu=2, eps=0.04, L=2.0, radius=0.5, init_type='checkerboard'))
+more('battery', dict(ncapacitors=1, V_ref=np.array([0.8]), C=np.array([2.0]), Vs=3.0, Rs=0.2, R=2.0, L=0.5, alpha=1.5))
+more('battery_n_capacitors', dict(ncapacitors=3, V_ref=np.array([1.0, 0.9, 0.8]), C=np.array([1.0, 2.0, 0.5]), alpha=1.1))
+more('buck_converter', dict(duty=0.3, fsw=500.0, Vs=5.0, Rs=0.1, C1=2e-3, Rp=0.02, L1=2e-3, C2=5e-4, Rl=5))
+more('swfw_scalar', dict(lambda_s=np.array([-0.5 + 1j]), lambda_f=np.array([20j]), u0=2.0))
+more('heatNd_unforced', dict(nvars=15, nu=0.3, freq=3, stencil_type='center', order=4, bc='dirichlet-zero'), dict(nvars=16, nu=0.05, freq=-1, sigma=0.1, bc='periodic'), dict(nvars=(7, 7, 7), nu=0.2, freq=(1, 2, 1), bc='dirichlet-zero'), dict(nvars=(8, 8), nu=0.2, freq=(2, 2), order=4, bc='periodic'))
+more('heatNd_forced', dict(nvars=(7, 7), nu=0.3, freq=(1, 2), bc='dirichlet-zero'), dict(nvars=15, nu=0.1, freq=3, order=4, bc='dirichlet-zero'))
+more('LorenzAttractor', dict(sigma=8.0, rho=20.0, beta=2.0, u0=(2.0, -1.0, 10.0), newton_tol=1e-11))
+more('piline', dict(Vs=50.0, Rs=2.0, C1=0.5, Rpi=0.4, Lpi=2.0, C2=1.5, Rl=3.0))
+more('Quench', dict(nvars=2**4, newton_tol=1e-10, leak_transition='Gaussian'), dict(nvars=2**4, newton_tol=1e-10, Cv=500.0, K=200.0, u_thresh=0.05, u_max=0.1, Q_max=2.0, leak_range=(0.3, 0.6), order=4))
+more('testequation0d', dict(lambdas=np.array([-3.0, -0.1]), u0=2.5), dict(lambdas=np.array([-1.0, 1j, -3.0 + 1j]), u0=1.0 + 0.5j))
+more('test_equation_IMEX', dict(lambdas_implicit=np.array([-4.0]), lambdas_explicit=np.array([1.5]), u0=0.5))
+more('GenericNDimFinDiff', dict(nvars=15, coeff=0.7, derivative=2, freq=2, order=4, bc='dirichlet-zero'), dict(nvars=(8, 8), coeff=-0.3, derivative=1, freq=(2, 2), stencil_type='center', order=2, bc='periodic'), dict(nvars=15, coeff=1.0, derivative=2, freq=1, bc='neumann-zero'))
+more('nonlinear_ODE_1', dict(u0=0.3, newton_tol=1e-12))
+more('ProtheroRobinson', dict(epsilon=1.0, nonLinear=True), dict(epsilon=1e-5, nonLinear=False))
+more('ProtheroRobinsonAutonomous', dict(epsilon=1.0, nonLinear=True))
+more('polynomial_testequation', dict(degree=6, seed=11), dict(degree=1, seed=3))
+more('polynomial_testequation_IMEX', dict(degree=5, seed=12))
+more('fermi_pasta_ulam_tsingou', dict(npart=5, alpha=1.0, k=2.0, energy_modes=[[1]]))
+more('outer_solar_system', dict(sun_only=True))
+more('full_solar_system', dict(sun_only=True))
+more('penningtrap', dict(omega_B=10.0, omega_E=2.0, u0=np.array([[1, 0.5, -1], [2, 0, 3], [1], [1]], dtype=object), nparts=3, sig=0.2))
+more('Heat1DChebychev', dict(nvars=16, a=1.0, b=-2.0, f=2, nu=0.3, mode='T2T'), dict(nvars=17, a=0.5, b=0.5, f=0, nu=2.0))
+more('Heat1DUltraspherical', dict(nvars=16, a=1.0, b=-2.0, f=2, nu=0.3))
+more('Heat2DChebychev', dict(nx=8, ny=9, a=1.0, b=1.0, c=0.5, fx=2, fy=1, nu=0.5))
+more('Burgers1D', dict(N=16, epsilon=0.3, BCl=0.5, BCr=-0.2, f=1, mode='T2T'))
 SIBLINGS = [
     ('allencahn_front_fullyimplicit', 'allencahn_front_semiimplicit'), ('allencahn_periodic_fullyimplicit', 'allencahn_periodic_semiimplicit'), ('allencahn_periodic_fullyimplicit', 'allencahn_periodic_multiimplicit'),
     ('allencahn_fullyimplicit', 'allencahn_semiimplicit'), ('allencahn_fullyimplicit', 'allencahn_semiimplicit_v2'), ('allencahn_fullyimplicit', 'allencahn_multiimplicit'), ('allencahn_fullyimplicit', 'allencahn_multiimplicit_v2'),
@@ -370,7 +410,8 @@ def run_class(case, r):
         want = np.broadcast_to(np.asarray(kw['u0'], dtype=complex).ravel(), ua.shape) if np.asarray(kw['u0']).size in (1, ua.size) else None
         if want is not None:
             e0 = float(np.max(np.abs(ua - want)))
-            r.check(e0 <= 1e-12 * (1 + float(np.max(np.abs(want)))), 'closed-form-solution-matches-initial-condition', f'{tag}: u_exact(0) = {ua} but the configured initial value is {kw["u0"]}')
+            r.check(e0 <= 1e-12 * (1 + float(np.max(np.abs(want)))), 'closed-form-solution-matches-initial-condition', f'{tag}: u_exact(0) = {ua} but the configured initial value is {kw["u0"]}',
+                    mech='nonlinear_ODE_1:u0-parameter-ignored-by-closed-form-solution' if name == 'nonlinear_ODE_1' else None)
     if not sp.get('spectral') and not sp.get('no_exact') and np.asarray(P.u_exact(t0)).size <= 8 and tmax > 0:
         ts = t0 + float(rng.uniform(0.1, 0.9)) * tmax
         try:
